@@ -247,3 +247,27 @@ mod setting_ids {
     pub const SETTINGS_ENABLE_WEBTRANSPORT: VarInt = VarInt::from_u32(0x2b60_3742);
     pub const SETTINGS_WEBTRANSPORT_MAX_SESSIONS: VarInt = VarInt::from_u32(0xc671_706a);
 }
+
+#[cfg(wtransport_verif)]
+#[doc(hidden)]
+#[allow(missing_docs)]
+pub mod verif {
+    use super::*;
+
+    /// `Ok(id)`, `Err(true)` = reserved, `Err(false)` = unknown.
+    pub fn setting_id_parse(id: VarInt) -> Result<SettingId, bool> {
+        SettingId::parse(id).map_err(|error| matches!(error, ParseError::ReservedSetting))
+    }
+
+    pub fn setting_id_id(id: SettingId) -> VarInt {
+        id.id()
+    }
+
+    pub fn setting_id_is_reserved(id: VarInt) -> bool {
+        SettingId::is_reserved(id)
+    }
+
+    pub fn setting_id_is_exercise(id: VarInt) -> bool {
+        SettingId::is_exercise(id)
+    }
+}
